@@ -40,8 +40,8 @@ extern "C" void h_sentry()
     QString text = vf_string(VF_MLEN, false, 0x0001, 0xffff);
 #endif
     int type = vf_range(0, 4); int line = vf_range(0, 9999);
-    static const char *const cats[] = { nullptr, "", "default", "app", "Default" };
-    int ci = vf_range(0, 4);
+    static const char *const cats[] = { nullptr, "", "default", "app", "Default", "defaults" };
+    int ci = vf_range(0, 5);
     bool nf = vf_nondet_bool(), nu = vf_nondet_bool();
     QMessageLogContext ctx(nf ? nullptr : "f.c", line, nu ? nullptr : "fn", cats[ci]);
     LogMessage msg((QtMsgType)type, ctx, text);
